@@ -265,6 +265,41 @@ def gen_index_mask_before(rng, bs, n, sd):
     return ix
 
 
+def gen_index_mask2(rng, bs, n, sd):
+    """targeted: a rank-2 mask starting ON the stack dim (needs a member dim after it) or SPANNING it (starting one
+    dim before it), basic items / Nones before, basic items / an Ellipsis / nothing after"""
+    full = list(bs)
+    full.insert(sd, n)
+    starts = ([sd] if sd + 1 < len(full) else []) + ([sd - 1] if sd >= 1 else [])
+    if not starts:
+        return None
+    start = rng.choice(starts)
+    ix = []
+    for d in full[:start]:
+        if rng.random() < 0.2:
+            ix.append(("none",))
+        it = gen_item_for_dim(rng, d)
+        ix.append(it if it[0] in ("int", "slice") else ("slice", None, None, None))
+    if rng.random() < 0.25:
+        ix.append(("none",))
+    mshape = full[start:start + 2]
+    cnt = mshape[0] * mshape[1]
+    p = rng.choice([0.0, 0.3, 0.6, 0.6, 1.0]) if rng.random() < 0.3 else 0.6
+    ix.append(("mask", list(mshape), [rng.random() < p for _ in range(cnt)]))
+    if rng.random() < 0.2:
+        ix.append(("none",))
+    r = rng.random()
+    if r < 0.35:
+        pass
+    elif r < 0.5:
+        ix.append(("ell",))
+    else:
+        for d in full[start + 2:rng.randint(start + 2, len(full))]:
+            it = gen_item_for_dim(rng, d)
+            ix.append(it if it[0] in ("int", "slice") else ("slice", None, None, None))
+    return ix
+
+
 def expand_ell(ix, rank):
     """the index with Ellipsis replaced by the full slices it stands for (as convert_ellipsis_to_idx does)"""
     if not any(i[0] == "ell" for i in ix):
